@@ -658,4 +658,339 @@ theorem find_line {body : Re} {s : Bytes} {a e : Nat} {c : Caps} (hn : body.noLF
       subst this
       exact ⟨t, hb⟩
 
+/-! ## completeness -/
+
+theorem Re.need_pos (re : Re) (n : Nat) : 1 ≤ re.need n := by
+  cases re <;> simp only [Re.need] <;> omega
+
+theorem Re.need_mono (re : Re) {n n' : Nat} (h : n ≤ n') : re.need n ≤ re.need n' := by
+  induction re with
+  | cat a b iha ihb | alt a b iha ihb => simp only [Re.need]; omega
+  | star r g ih | plus r g ih | quest r g ih => simp only [Re.need]; omega
+  | group i r ih => simp only [Re.need]; omega
+  | _ => simp [Re.need]
+
+theorem Matches.total {re : Re} {p q : Pos} (h : Matches re p q) :
+    q.off + q.after.length = p.off + p.after.length := by
+  obtain ⟨n, _, rfl⟩ := h.advance
+  exact Pos.advance_total n p
+
+theorem Matches.after_le {re : Re} {p q : Pos} (h : Matches re p q) :
+    q.after.length ≤ p.after.length := by
+  have := h.total; have := h.off_le; omega
+
+/-- Engine completeness, continuation form: if the relation allows a match from `p` to `q`, the
+continuation accepts `q` (whatever the captures) and the fuel covers `Re.need`, the engine finds
+some match (not necessarily the one ending at `q`: priorities decide). Empty star iterations, which
+the engine refuses (`p'.off == p.off → none`), are dropped from the derivation. -/
+theorem m_complete {re : Re} {p q : Pos} (h : Matches re p q) :
+    ∀ (f : Nat), re.need p.after.length ≤ f → ∀ (c : Caps) (k : Pos → Caps → Option (Pos × Caps)),
+      (∀ c', (k q c').isSome = true) → (m f re p c k).isSome = true := by
+  induction h with
+  | empty p =>
+    intro f hf c k hk
+    cases f with
+    | zero => simp [Re.need] at hf
+    | succ f => simp only [m]; exact hk c
+  | lit hd =>
+    intro f hf c k hk
+    cases f with
+    | zero => simp [Re.need] at hf
+    | succ f => simp only [m, hd, beq_self_eq_true, if_true]; exact hk c
+  | cls hd hr =>
+    intro f hf c k hk
+    cases f with
+    | zero => simp [Re.need] at hf
+    | succ f => simp only [m, hd, hr, if_true]; exact hk c
+  | anyNL hd =>
+    intro f hf c k hk
+    cases f with
+    | zero => simp [Re.need] at hf
+    | succ f => simp only [m, hd]; exact hk c
+  | anyNoNL hd hr =>
+    intro f hf c k hk
+    cases f with
+    | zero => simp [Re.need] at hf
+    | succ f =>
+      simp only [m, hd]
+      rw [if_neg (by simpa using hr)]; exact hk c
+  | bol hb =>
+    intro f hf c k hk
+    cases f with
+    | zero => simp [Re.need] at hf
+    | succ f =>
+      simp only [m]
+      unfold Pos.atBol at hb
+      split
+      · exact hk c
+      · rename_i b t hbt
+        rw [hbt] at hb
+        simp only at hb
+        rw [if_pos hb]; exact hk c
+  | eol hb =>
+    intro f hf c k hk
+    cases f with
+    | zero => simp [Re.need] at hf
+    | succ f =>
+      simp only [m]
+      unfold Pos.atEol at hb
+      split
+      · exact hk c
+      · rename_i b t hbt
+        rw [hbt] at hb
+        simp only at hb
+        rw [if_pos hb]; exact hk c
+  | bot hb =>
+    intro f hf c k hk
+    cases f with
+    | zero => simp [Re.need] at hf
+    | succ f =>
+      simp only [m]
+      unfold Pos.atBot at hb
+      split
+      · exact hk c
+      · rename_i b t hbt
+        rw [hbt] at hb
+        cases hb
+  | eot hb =>
+    intro f hf c k hk
+    cases f with
+    | zero => simp [Re.need] at hf
+    | succ f =>
+      simp only [m]
+      unfold Pos.atEot at hb
+      split
+      · exact hk c
+      · rename_i b t hbt
+        rw [hbt] at hb
+        cases hb
+  | wordB hw =>
+    intro f hf c k hk
+    cases f with
+    | zero => simp [Re.need] at hf
+    | succ f => simp only [m, hw, if_true]; exact hk c
+  | noWordB hw =>
+    intro f hf c k hk
+    cases f with
+    | zero => simp [Re.need] at hf
+    | succ f => simp only [m, hw, Bool.false_eq_true, if_false]; exact hk c
+  | @cat a b p q r h1 h2 ih1 ih2 =>
+    intro f hf c k hk
+    cases f with
+    | zero => simp [Re.need] at hf
+    | succ f =>
+      simp only [m]
+      simp only [Re.need] at hf
+      apply ih1 f (by omega)
+      intro c'
+      have := b.need_mono h1.after_le
+      exact ih2 f (by omega) c' k hk
+  | @altL a b p q h ih =>
+    intro f hf c k hk
+    cases f with
+    | zero => simp [Re.need] at hf
+    | succ f =>
+      simp only [m]
+      simp only [Re.need] at hf
+      have := ih f (by omega) c k hk
+      split
+      · rfl
+      · rename_i hnone; rw [hnone] at this; cases this
+  | @altR a b p q h ih =>
+    intro f hf c k hk
+    cases f with
+    | zero => simp [Re.need] at hf
+    | succ f =>
+      simp only [m]
+      simp only [Re.need] at hf
+      split
+      · rfl
+      · exact ih f (by omega) c k hk
+  | @starNil r g p =>
+    intro f hf c k hk
+    cases f with
+    | zero => simp only [Re.need] at hf; omega
+    | succ f =>
+      simp only [m]
+      have hk' := hk c
+      cases g
+      · simp only [Bool.false_eq_true, if_false]
+        split
+        · rfl
+        · rename_i hnone; rw [hnone] at hk'; cases hk'
+      · simp only [if_true]
+        split
+        · rfl
+        · exact hk'
+  | @starCons r g p q s h1 h2 ih1 ih2 =>
+    intro f hf c k hk
+    cases f with
+    | zero => simp only [Re.need] at hf; omega
+    | succ f =>
+      by_cases ho : q.off = p.off
+      · have := h1.eq_of_off_eq ho
+        subst this
+        exact ih2 (f + 1) hf c k hk
+      · simp only [m]
+        simp only [Re.need] at hf
+        have hloop : (m f r p c (fun p' c' => if (p'.off == p.off) = true then none
+              else m f (.star r g) p' c' k)).isSome = true := by
+          apply ih1 f (by omega)
+          intro c'
+          rw [if_neg (by simpa using ho)]
+          apply ih2 f ?_ c' k hk
+          have h3 := h1.total
+          have h4 := h1.off_le
+          have hlt : q.after.length < p.after.length := by omega
+          have := r.need_mono (Nat.le_of_lt hlt)
+          simp only [Re.need]; omega
+        cases g
+        · simp only [Bool.false_eq_true, if_false]
+          split
+          · rfl
+          · exact hloop
+        · simp only [if_true]
+          split
+          · rfl
+          · rename_i hnone; rw [hnone] at hloop; cases hloop
+  | @plus r g p q s h1 h2 ih1 ih2 =>
+    intro f hf c k hk
+    simp only [Re.need] at hf
+    match f, hf with
+    | f + 2, hf =>
+      simp only [m]
+      apply ih1 f (by omega)
+      intro c'
+      have := r.need_mono h1.after_le
+      have := h1.after_le
+      exact ih2 f (by simp only [Re.need]; omega) c' k hk
+  | @questNil r g p =>
+    intro f hf c k hk
+    cases f with
+    | zero => simp only [Re.need] at hf; omega
+    | succ f =>
+      simp only [m]
+      have hk' := hk c
+      cases g
+      · simp only [Bool.false_eq_true, if_false]
+        split
+        · rfl
+        · rename_i hnone; rw [hnone] at hk'; cases hk'
+      · simp only [if_true]
+        split
+        · rfl
+        · exact hk'
+  | @questSome r g p q h ih =>
+    intro f hf c k hk
+    cases f with
+    | zero => simp only [Re.need] at hf; omega
+    | succ f =>
+      simp only [m]
+      simp only [Re.need] at hf
+      have hr := ih f (by omega) c k hk
+      cases g
+      · simp only [Bool.false_eq_true, if_false]
+        split
+        · rfl
+        · exact hr
+      · simp only [if_true]
+        split
+        · rfl
+        · rename_i hnone; rw [hnone] at hr; cases hr
+  | @group i r p q h ih =>
+    intro f hf c k hk
+    cases f with
+    | zero => simp only [Re.need] at hf; omega
+    | succ f =>
+      simp only [m]
+      simp only [Re.need] at hf
+      exact ih f (by omega) c _ (fun c' => hk _)
+
+
+/-- `matchAt` completeness: with enough fuel, whenever the relation allows some match from `p`,
+the engine reports a match from `p`. -/
+theorem matchAt_complete {re : Re} {p q : Pos} {fuel : Nat} (h : Matches re p q)
+    (hf : re.need p.after.length ≤ fuel) : (matchAt re fuel p).isSome = true :=
+  m_complete h fuel hf [] _ (fun _ => rfl)
+
+/-- `matchAt` is exact on "does some match start here". -/
+theorem matchAt_isSome_iff {re : Re} {p : Pos} {fuel : Nat} (hf : re.need p.after.length ≤ fuel) :
+    (matchAt re fuel p).isSome = true ↔ ∃ q, Matches re p q := by
+  constructor
+  · intro h
+    rw [Option.isSome_iff_exists] at h
+    obtain ⟨⟨q, c⟩, h⟩ := h
+    exact ⟨q, matchAt_sound h⟩
+  · rintro ⟨q, h⟩
+    exact matchAt_complete h hf
+
+theorem RuneReach.after_le {p q : Pos} (h : RuneReach p q) : q.after.length ≤ p.after.length := by
+  obtain ⟨n, _, rfl⟩ := h.advance
+  rw [Pos.advance_after, List.length_drop]; omega
+
+theorem searchFrom_complete {re : Re} {fuel : Nat} {p p' : Pos} (hr : RuneReach p p')
+    (hm : (matchAt re fuel p').isSome = true) :
+    ∀ n, p.after.length < n → (searchFrom re fuel n p).isSome = true := by
+  induction hr with
+  | refl p =>
+    intro n hn
+    cases n with
+    | zero => omega
+    | succ n =>
+      simp only [searchFrom]
+      split
+      · rfl
+      · rename_i hnone; rw [hnone] at hm; cases hm
+  | @step p q r w hd _ ih =>
+    intro n hn
+    cases n with
+    | zero => omega
+    | succ n =>
+      simp only [searchFrom]
+      split
+      · rfl
+      · simp only [hd]
+        apply ih hm
+        have := decodeRune_width hd
+        rw [Pos.advance_after, List.length_drop]; omega
+
+theorem Re.need_le_size (re : Re) (n : Nat) : re.need n ≤ re.size * (n + 3) := by
+  induction re with
+  | cat a b iha ihb | alt a b iha ihb =>
+    simp only [Re.need, Re.size, Nat.add_mul, Nat.one_mul]; omega
+  | star r g ih | plus r g ih | quest r g ih =>
+    simp only [Re.need, Re.size, Nat.add_mul, Nat.one_mul]; omega
+  | group i r ih => simp only [Re.need, Re.size, Nat.add_mul, Nat.one_mul]; omega
+  | _ => simp only [Re.need, Re.size, Nat.one_mul]; omega
+
+/-- the fuel `find` / `findAll` use covers `Re.need` at every position of the subject -/
+theorem fuelFor_ge_need (re : Re) (s : Bytes) {n : Nat} (h : n ≤ s.length) :
+    re.need n ≤ fuelFor re s := by
+  have h1 := re.need_mono h
+  have h2 := re.need_le_size s.length
+  have h3 : re.size * (s.length + 3) ≤ (re.size + 2) * (s.length + 2) * 4 := by
+    rw [Nat.mul_assoc]
+    exact Nat.mul_le_mul (by omega) (by omega)
+  unfold fuelFor; omega
+
+/-- `isMatch` completeness: a match of the relation starting at a rune-boundary position of `s`
+makes `isMatch` true. -/
+theorem isMatch_complete {re : Re} {s : Bytes} {p q : Pos} (hr : RuneReach (Pos.start s) p)
+    (h : Matches re p q) : isMatch re s = true := by
+  unfold isMatch find
+  rw [Option.isSome_map]
+  have hle : p.after.length ≤ s.length := by simpa [Pos.start] using hr.after_le
+  exact searchFrom_complete hr (matchAt_complete h (fuelFor_ge_need re s hle)) _
+    (by simp [Pos.start])
+
+/-- **`isMatch` is exactly "some substring (between rune boundaries) matches".** -/
+theorem isMatch_iff (re : Re) (s : Bytes) :
+    isMatch re s = true ↔ ∃ p q, RuneReach (Pos.start s) p ∧ Matches re p q := by
+  constructor
+  · intro h
+    obtain ⟨p, q, hr, _, _, hM⟩ := isMatch_sound h
+    exact ⟨p, q, hr, hM⟩
+  · rintro ⟨p, q, hr, hM⟩
+    exact isMatch_complete hr hM
+
 end Scrapli.Rx
